@@ -21,6 +21,8 @@
 (*   perm     [cannot-open]  regular file, mode 000                        *)
 (*   dangling [cannot-open]  path that vanished: dangling symlink (named   *)
 (*                           explicitly; a walk skips symlinks silently)   *)
+(*   linkL    [cannot-open]  dangling symlink met by a walk that follows   *)
+(*                           links (-L): the entry cannot be listed        *)
 (*   dir000   [cannot-open]  directory of mode 000 met by the walk         *)
 (*   dir444   [cannot-open]  a file in a directory of mode 444: it is listed (names can be read) but can be neither       *)
 (*                           stat'ed nor opened                                                                      *)
@@ -57,7 +59,7 @@ VARIABLES scn, pc
 vars == <<scn, pc>>
 
 \* ---------------------------------------------------------------- vocabulary
-Kinds    == {"match", "nomatch", "binary", "perm", "dangling", "dir000", "dir444", "eio", "prefail"}
+Kinds    == {"match", "nomatch", "binary", "perm", "dangling", "linkL", "dir000", "dir444", "eio", "prefail"}
 Modes    == {"standard", "quiet", "l", "c", "files", "json", "fwm"}
 Namings  == {"explicit", "traversal"}
 ArgKinds == {"ok", "badregex", "badglob", "badenc", "badflag"}
@@ -65,13 +67,13 @@ ArgKinds == {"ok", "badregex", "badglob", "badenc", "badflag"}
 Class(k) == CASE k = "match"   -> "has-match"
               [] k = "nomatch" -> "no-match"
               [] k = "binary"  -> "binary"
-              [] k \in {"perm", "dangling", "dir000", "dir444"} -> "cannot-open"
+              [] k \in {"perm", "dangling", "linkL", "dir000", "dir444"} -> "cannot-open"
               [] k \in {"eio", "prefail"}             -> "read-error"
 
 Healthy(k) == k \in {"match", "nomatch", "binary"}
 
 \* the step of processing a path at which a faulty kind fails
-FailStage(k) == CASE k \in {"dangling", "dir000"} -> "list"
+FailStage(k) == CASE k \in {"dangling", "linkL", "dir000"} -> "list"
                   [] k \in {"perm", "dir444"}       -> "open"
                   [] k \in {"eio", "prefail"}     -> "read"
 
@@ -79,7 +81,7 @@ FailStage(k) == CASE k \in {"dangling", "dir000"} -> "list"
 Reaches(mode) == IF mode = "files" THEN {"list"} ELSE {"list", "open", "read"}
 
 \* kinds that can be realised under a naming
-KindsOf(naming) == IF naming = "explicit" THEN Kinds \ {"dir000", "dir444"}
+KindsOf(naming) == IF naming = "explicit" THEN Kinds \ {"dir000", "dir444", "linkL"}
                                           ELSE Kinds \ {"dangling", "eio"}
 
 IsScenario(s) ==
